@@ -65,6 +65,7 @@ enum Tamper {
     None,
     VShare(usize, usize, usize, u8), // round, aggregator, position, xor
     Msg(usize, usize, u8),           // round, position, xor
+    MsgSub(usize, u8),               // round, substitution: 0 = empty message, 1 = first element only, 2 = first two, 3 = the round-one message again
 }
 
 /// Verifies one report for one aggregation parameter from its wire bytes. Returns the encoded output shares.
@@ -93,6 +94,7 @@ fn verify(v: &V, bits: usize, ctx: &[u8], key: &[u8; 32], rep_pub: &[u8], rep_sh
             Err(p) => { out.push(json!({"ev":"panic","where":"verify_init","msg":p,"level":ap.level()})); return None; }
         }
     }
+    let mut round_one_msg: Vec<u8> = Vec::new();
     for round in 1..=2usize {
         let mut wire = vshares.clone();
         if let Tamper::VShare(r, a, pos, x) = tamper { if r == round { let l = wire[a].len(); wire[a][pos % l] ^= x; } }
@@ -110,7 +112,14 @@ fn verify(v: &V, bits: usize, ctx: &[u8], key: &[u8; 32], rep_pub: &[u8], rep_sh
             Err(p) => { out.push(json!({"ev":"panic","where":"s2m","msg":p})); return None; }
         };
         let mut mb = msg.clone();
+        if round == 1 { round_one_msg = msg.clone(); }
         if let Tamper::Msg(r, pos, x) = tamper { if r == round && !mb.is_empty() { let l = mb.len(); mb[pos % l] ^= x; } }
+        if let Tamper::MsgSub(r, k) = tamper {
+            if r == round {
+                let sz = if leaf { 32 } else { 8 };
+                mb = match k { 0 => vec![], 1 => round_one_msg[..sz].to_vec(), 2 => round_one_msg[..2 * sz].to_vec(), _ => round_one_msg.clone() };
+            }
+        }
         let mut next_states = Vec::new();
         let mut next_shares = Vec::new();
         let mut outs = Vec::new();
@@ -312,6 +321,8 @@ pub fn record(args: &[String]) {
                 for j in 0..2 { for i in (0..rep.shares[j].len()).step_by(stride) { let mut s = rep.shares.clone(); s[j][i] ^= 1 << (i % 8); cases.push((rep.pubb.clone(), s, Tamper::None)); } }
                 for round in 1..=2 { for a in 0..2 { for pos in (0..(if leaf { 96 } else { 24 })).step_by(stride) { cases.push((rep.pubb.clone(), rep.shares.clone(), Tamper::VShare(round, a, pos, 1 << (pos % 8)))); } } }
                 for pos in (0..(if leaf { 96 } else { 24 })).step_by(stride) { cases.push((rep.pubb.clone(), rep.shares.clone(), Tamper::Msg(1, pos, 1 << (pos % 8)))); }
+                // a message of the wrong round / a truncated message delivered instead of the genuine one
+                for (round, k) in [(1usize, 0u8), (1, 1), (1, 2), (2, 1), (2, 3)] { cases.push((rep.pubb.clone(), rep.shares.clone(), Tamper::MsgSub(round, k))); }
                 for (p, s, t) in cases {
                     if let Some(outs) = verify(&v, bits, &ctx, &key, &p, &s, &rep.nonce, &ap, false, t, &mut out) {
                         out.push(json!({"ev":"outsum","leaf":leaf,"n":n,"out0":outs[0],"out1":outs[1]}));
@@ -322,6 +333,9 @@ pub fn record(args: &[String]) {
                 if other_level != level {
                     let ps2 = prefixes_of(&[input.clone()], other_level, &mut rng, n);
                     let Some(ap2) = mk_ap(ps2, &mut out) else { continue };
+                    // (driver-side unwraps below concern honest values; under a defective implementation they surface as a logged panic)
+                    let evs = guarded(|| {
+                        let mut out: Vec<Value> = Vec::new();
                     let public = Poplar1PublicShare::get_decoded_with_param(&v, &rep.pubb).unwrap();
                     let sh0 = Poplar1InputShare::<32>::get_decoded_with_param(&(&v, 0), &rep.shares[0]).unwrap();
                     let sh1 = Poplar1InputShare::<32>::get_decoded_with_param(&(&v, 1), &rep.shares[1]).unwrap();
@@ -329,21 +343,133 @@ pub fn record(args: &[String]) {
                     let (_, vs_a1) = v.verify_init(&key, &ctx, 1, &ap, &rep.nonce, &public, &sh1).unwrap();
                     let (st_b, vs_b0) = v.verify_init(&key, &ctx, 0, &ap2, &rep.nonce, &public, &sh0).unwrap();
                     let (_, vs_b1) = v.verify_init(&key, &ctx, 1, &ap2, &rep.nonce, &public, &sh1).unwrap();
-                    flush(&mut out);
-                    out.retain(|e| e["ev"] != "xof" || true);
+                    let _ = take_log();
                     let msg_a = v.verifier_shares_to_message(&ctx, &ap, [vs_a0.clone(), vs_a1.clone()]).unwrap();
                     let msg_b = v.verifier_shares_to_message(&ctx, &ap2, [vs_b0.clone(), vs_b1]).unwrap();
-                    // inner state with leaf message and vice versa; round-one state with a "done" message is covered by decode
-                    out.push(json!({"ev":"mismatch","what":"state(level A) + message(level B)","ok":v.verify_next(&ctx, st_a.clone(), msg_b).is_ok()}));
-                    out.push(json!({"ev":"mismatch","what":"state(level B) + message(level A)","ok":v.verify_next(&ctx, st_b, msg_a.clone()).is_ok()}));
-                    out.push(json!({"ev":"mismatch","what":"combine shares of different level kinds","ok":v.verifier_shares_to_message(&ctx, &ap, [vs_a0.clone(), vs_b0]).is_ok()}));
-                    // round-two state with a round-one message
-                    if let Ok(VerifyTransition::Continue(st2, _)) = v.verify_next(&ctx, st_a, msg_a.clone()) {
-                        out.push(json!({"ev":"mismatch","what":"round-two state + round-one message","ok":v.verify_next(&ctx, st2, msg_a).is_ok()}));
+                    // every (verifier state, verifier message) variant pair through verify_next, judged by Poplar1Rounds!VerifyNextOK
+                    let kind_a = if leaf { "leaf" } else { "inner" };
+                    let kind_b = if leaf { "inner" } else { "leaf" };
+                    let st2_a = match v.verify_next(&ctx, st_a.clone(), msg_a.clone()) { Ok(VerifyTransition::Continue(st2, vs2)) => Some((st2, vs2)), _ => None };
+                    let st2_b = match v.verify_next(&ctx, st_b.clone(), msg_b.clone()) { Ok(VerifyTransition::Continue(st2, vs2)) => Some((st2, vs2)), _ => None };
+                    if let (Some((st2_a, vs2_a0)), Some((st2_b, vs2_b0))) = (st2_a, st2_b) {
+                        let done = Poplar1VerifierMessage::get_decoded_with_param(&st2_a, &[]).unwrap();
+                        let states = [(kind_a, 1, st_a.clone()), (kind_b, 1, st_b.clone()), (kind_a, 2, st2_a), (kind_b, 2, st2_b)];
+                        let msgs = [(kind_a, "sketch", msg_a.clone()), (kind_b, "sketch", msg_b.clone()), ("none", "done", done)];
+                        for (sk, sr, st) in states.iter() {
+                            for (mk, body, m) in msgs.iter() {
+                                let r = guarded(|| v.verify_next(&ctx, st.clone(), m.clone()));
+                                let (ok, kind) = match r { Ok(Ok(VerifyTransition::Continue(..))) => (true, "continue"), Ok(Ok(VerifyTransition::Finish(..))) => (true, "finish"), Ok(Err(_)) => (false, "err"), Err(_) => (false, "panic") };
+                                out.push(json!({"ev":"variant","skind":sk,"sround":sr,"mkind":mk,"mbody":body,"ok":ok,"kind":kind}));
+                            }
+                        }
+                        // every pair of verifier shares (field kind x round) through verifier_shares_to_message, judged by CombineOK
+                        let shares = [(kind_a, 3, vs_a0.clone()), (kind_b, 3, vs_b0.clone()), (kind_a, 1, vs2_a0), (kind_b, 1, vs2_b0)];
+                        for (k0, l0, s0) in shares.iter() {
+                            for (k1, l1, s1) in shares.iter() {
+                                // equal round-two shares do not sum to zero (that verdict is the zero test of "s2m" events): skip the arithmetic case
+                                if *l0 == 1 && *l1 == 1 && k0 == k1 { continue; }
+                                let r = guarded(|| v.verifier_shares_to_message(&ctx, &ap, [s0.clone(), s1.clone()]));
+                                out.push(json!({"ev":"combine","kind0":k0,"len0":l0,"kind1":k1,"len1":l1,"ok":matches!(r, Ok(Ok(_))),"panic":r.is_err()}));
+                            }
+                        }
                     }
                     out.push(json!({"ev":"mismatch","what":"one verifier share only","ok":v.verifier_shares_to_message(&ctx, &ap, [vs_a0.clone()]).is_ok()}));
                     out.push(json!({"ev":"mismatch","what":"three verifier shares","ok":v.verifier_shares_to_message(&ctx, &ap, [vs_a0.clone(), vs_a1.clone(), vs_a1]).is_ok()}));
+                        out
+                    });
+                    match evs {
+                        Ok(mut evs) => out.append(&mut evs),
+                        Err(m) => out.push(json!({"ev":"panic","where":"variants","msg":m})),
+                    }
                     let _ = take_log();
+                }
+            }
+        }
+        "attack" => {
+            // Malicious clients built through the public IDPF API: the IDPF programs (y, auth*y + dz) on the input's path
+            // at the attacked level (honest values elsewhere), the leader's B share of that level is off by dB; everything
+            // else is the honest report's. y, dz, dB are small integers (negative ones read modulo p). The trace spec
+            // decides from Poplar1Rounds!DevWellFormed whether the report must be accepted under every key with a
+            // contribution of exactly y at the on-path candidate, or must be rejected under at least one of the keys.
+            use prio::field::{Field255, Field64, FieldElement};
+            use prio::idpf::{Idpf, IdpfOutputShare};
+            use prio::vdaf::poplar1::Poplar1IdpfValue;
+            use prio::vdaf::xof::Seed;
+            use prio::codec::Decode;
+            fn small<F: FieldElement>(x: i64) -> F where F: From<u64> {
+                if x >= 0 { F::from(x as u64) } else { -F::from((-x) as u64) }
+            }
+            let descriptors: Vec<(i64, i64, i64)> = if thorough {
+                let mut d = Vec::new();
+                for y in [0, 1, 2, -1, 3] { for dz in [0, 1, -1] { for db in [0, 1, -2] { d.push((y, dz, db)); } } }
+                d
+            } else {
+                vec![(1, 0, 0), (0, 0, 0), (2, 0, 0), (-1, 0, 0), (1, 1, 0), (0, 1, 0), (1, 0, 1), (0, 0, -2), (2, 1, 0), (3, 0, 0), (2, -1, 1)]
+            };
+            for (bits, level) in [(2usize, 0usize), (2, 1), (5, 2), (5, 4), (9, 0)] {
+                let v: V = Poplar1::new(bits);
+                let leaf = level == bits - 1;
+                for (y, dz, db) in descriptors.iter().copied() {
+                    let ctx = rng.bytes(2);
+                    out.push(json!({"ev":"begin","bits":bits}));
+                    let input = IdpfInput::from_bools(&(0..bits).map(|_| rng.below(2) == 1).collect::<Vec<_>>());
+                    let Some(rep) = shard(&v, &ctx, &input, &mut rng, &mut out, None) else { continue };
+                    let built = guarded(|| {
+                        let idpf = Idpf::<Poplar1IdpfValue<Field64>, Poplar1IdpfValue<Field255>>::new((), ());
+                        let public = Poplar1PublicShare::get_decoded_with_param(&v, &rep.pubb).unwrap();
+                        let keys: Vec<Seed<16>> = (0..2).map(|j| Seed::<16>::get_decoded(&rep.shares[j][..16]).unwrap()).collect();
+                        // the honest authenticators, recovered by evaluating both honest IDPF keys on the input's path
+                        let mut auth_inner: Vec<Field64> = Vec::new();
+                        let mut auth_leaf = Field255::zero();
+                        for l in 0..bits {
+                            let prefix = input.prefix(l);
+                            let o0 = idpf.eval(0, &public, &keys[0], &prefix, &ctx, &rep.nonce, &mut prio::idpf::NoCache::new()).unwrap();
+                            let o1 = idpf.eval(1, &public, &keys[1], &prefix, &ctx, &rep.nonce, &mut prio::idpf::NoCache::new()).unwrap();
+                            match o0.merge(o1).unwrap() {
+                                IdpfOutputShare::Inner(val) => { let b = val.get_encoded().unwrap(); auth_inner.push(Field64::get_decoded(&b[8..]).unwrap()); }
+                                IdpfOutputShare::Leaf(val) => { let b = val.get_encoded().unwrap(); auth_leaf = Field255::get_decoded(&b[32..]).unwrap(); }
+                            }
+                        }
+                        let inner: Vec<Poplar1IdpfValue<Field64>> = (0..bits - 1).map(|l| {
+                            if l == level { Poplar1IdpfValue::new([small::<Field64>(y), small::<Field64>(y) * auth_inner[l] + small::<Field64>(dz)]) }
+                            else { Poplar1IdpfValue::new([Field64::one(), auth_inner[l]]) }
+                        }).collect();
+                        let leafv = if leaf { Poplar1IdpfValue::new([small::<Field255>(y), small::<Field255>(y) * auth_leaf + small::<Field255>(dz)]) }
+                                    else { Poplar1IdpfValue::new([Field255::one(), auth_leaf]) };
+                        let (mal_pub, mal_keys) = idpf.gen(&input, inner, leafv, &ctx, &rep.nonce).unwrap();
+                        let mut shares = rep.shares.clone();
+                        for j in 0..2 { shares[j][..16].copy_from_slice(&mal_keys[j].get_encoded().unwrap()); }
+                        // the leader's B share of the attacked level
+                        if db != 0 {
+                            if leaf {
+                                let off = shares[0].len() - 32;
+                                let bv = Field255::get_decoded(&shares[0][off..]).unwrap() + small::<Field255>(db);
+                                shares[0][off..].copy_from_slice(&bv.get_encoded().unwrap());
+                            } else {
+                                let off = 16 + 32 + 16 * level + 8;
+                                let bv = Field64::get_decoded(&shares[0][off..off + 8]).unwrap() + small::<Field64>(db);
+                                shares[0][off..off + 8].copy_from_slice(&bv.get_encoded().unwrap());
+                            }
+                        }
+                        (mal_pub.get_encoded().unwrap(), shares)
+                    });
+                    let _ = take_log();
+                    let (mal_pub, mal_shares) = match built { Ok(x) => x, Err(m) => { out.push(json!({"ev":"panic","where":"attack construction","msg":m})); continue } };
+                    // candidates: the on-path prefix, its sibling and random ones
+                    let ps = prefixes_of(&[input.clone()], level, &mut rng, 4);
+                    let pos = ps.iter().position(|p| *p == input.prefix(level)).unwrap();
+                    let n = ps.len();
+                    let Some(ap) = mk_ap(ps, &mut out) else { continue };
+                    let mut accepted = Vec::new();
+                    let mut sums = Vec::new();
+                    for _k in 0..2 {
+                        let key: [u8; 32] = rng.bytes(32).try_into().unwrap();
+                        match verify(&v, bits, &ctx, &key, &mal_pub, &mal_shares, &rep.nonce, &ap, false, Tamper::None, &mut out) {
+                            Some(outs) => { accepted.push(true); sums.push(json!({"out0":outs[0],"out1":outs[1]})); }
+                            None => accepted.push(false),
+                        }
+                    }
+                    out.push(json!({"ev":"attack","y":y,"dz":dz,"dB":db,"leaf":leaf,"n":n,"pos":pos + 1,"accepted":accepted,"outs":sums}));
                 }
             }
         }
